@@ -518,6 +518,8 @@ pub struct CaseInput {
 /// Above this many tokens the model operations are not written (the list-based Lean model is
 /// quadratic in the number of tokens); the oracle still runs.
 pub static MAX_MODEL_TOKENS: std::sync::atomic::AtomicUsize = std::sync::atomic::AtomicUsize::new(3000);
+/// Above this many events the `parse` operation is not written (the model parser appends to a list).
+pub static MAX_PARSE_EVENTS: std::sync::atomic::AtomicUsize = std::sync::atomic::AtomicUsize::new(4000);
 
 pub fn run_case(n: u64, input: &CaseInput, lang: &Lang, out: &mut Out, dump: bool) -> bool {
     let src = input.text.as_str();
@@ -686,7 +688,7 @@ pub fn run_case(n: u64, input: &CaseInput, lang: &Lang, out: &mut Out, dump: boo
         if let Some(p) = &p1 {
             match reconstruct_ops(lang, toks, events, &p.errors) {
                 Some((root, ops)) => {
-                    if model_ops {
+                    if model_ops && events.len() <= MAX_PARSE_EVENTS.load(std::sync::atomic::Ordering::Relaxed) {
                         out.line(format!("pops {}", if ops.is_empty() { "-".to_string() } else { ops.join(" ") }));
                         out.line(format!("parse {root}"));
                         out.line(format!(
@@ -1919,6 +1921,7 @@ pub fn run(args: &Args) -> i32 {
         .unwrap_or_else(|| "/repo".to_string());
     let max_bytes = args.extra_usize("maxbytes", 4096);
     MAX_MODEL_TOKENS.store(args.extra_usize("maxmodeltokens", 3000), std::sync::atomic::Ordering::Relaxed);
+    MAX_PARSE_EVENTS.store(args.extra_usize("maxparseevents", 4000), std::sync::atomic::Ordering::Relaxed);
     let ctx = match Ctx::load(&repo, max_bytes) {
         Ok(c) => c,
         Err(e) => {
@@ -2010,6 +2013,7 @@ pub fn run(args: &Args) -> i32 {
                 .args(["c12", "--seed", &args.seed.to_string(), "--cases", &args.cases.to_string(), "--only", &n.to_string()])
                 .args(["--out", &tmp, "--child", "1", "--repo", &repo, "--maxbytes", &max_bytes.to_string()])
                 .args(["--maxmodeltokens", &args.extra_usize("maxmodeltokens", 3000).to_string()])
+                .args(["--maxparseevents", &args.extra_usize("maxparseevents", 4000).to_string()])
                 .stdout(std::process::Stdio::null())
                 .stderr(std::process::Stdio::null())
                 .status();
